@@ -350,7 +350,12 @@ def predicate(case, res):
                     bad.append(("C15:group-includes-itself", "group %r includes itself after %s" % (g["id"], json.dumps(o)[:120]),
                                 "no self include", g["includes"]))
         if t.get("err") == "Recursion":
-            bad.append(("C15:builder-call-recursion-error", "a builder call raised RecursionError", "returns", "RecursionError"))
+            k = len(trace)
+            part = {"trace": trace[:k - 1] + [{"state": {"segs": [[None] * 5] * (len(before) + 1)}}]}
+            tg = bookkeeping({"ops": case["ops"][:k]}, part)
+            okd, dk = discipline(tg, case)
+            bad.append(("C15:builder-call-recursion-error" if okd else dk, "a builder call raised RecursionError",
+                        "returns", "RecursionError"))
         if "state" in t:
             before = [s[0] for s in t["state"]["segs"]]
     fin = res["final"]
